@@ -155,7 +155,15 @@ func drawOp(c *Ctx, l *core.Lane, failing bool) *opCase {
 
 // run executes the operation once on a fresh device handle with the given delivery.
 func (o *opCase) run(c *Ctx, d Delivery) (*harness.Result, *world.SimReader) {
-	r := newReader(c.Dev, o.data, o.fault(), d)
+	return o.runSeek(c, d, false)
+}
+
+// runSeek: with seekFail the device's Seek method fails (a pipe, a socket, a forward-only
+// wrapper); entry points that take a plain io.Reader have no business calling it.
+func (o *opCase) runSeek(c *Ctx, d Delivery, seekFail bool) (*harness.Result, *world.SimReader) {
+	f := o.fault()
+	f.SeekFail = seekFail
+	r := newReader(c.Dev, o.data, f, d)
 	env := o.spec.New(c.Dev)
 	res := invoke(c, o.e, env, r)
 	return res, r
